@@ -1,6 +1,6 @@
 #!/bin/sh
 # tools/check_seeded.sh [name-prefix ...]: applies every kept seeded change to /repo in turn, runs the quick check of the
-# property it breaks (from meta.json; C05-m2 is detected by C17) and reports whether it was caught.  /repo is restored after each.
+# property it breaks (meta.json; `check_with` names another property's check where that is the one that catches it) and reports whether it was caught.  /repo is restored after each.
 cd /verif || exit 2
 PAT=${*:-C}
 rc=0
@@ -9,8 +9,7 @@ for d in seeded/*/; do
   ok=0; for p in $PAT; do case "$n" in $p*) ok=1;; esac; done
   [ $ok = 1 ] || continue
   [ -f "$d/meta.json" ] || continue
-  prop=$(/venv/bin/python -c "import json;print(json.load(open('$d/meta.json'))['property'])")
-  [ "$n" = "C05-m2-align-only-if-periodic" ] && prop=C17
+  prop=$(/venv/bin/python -c "import json;m=json.load(open('$d/meta.json'));print(m.get('check_with') or m['property'])")
   out=$(/verif/tools/try_mutation.sh "/verif/$d/patch.diff" $prop --tier quick 2>&1 | tail -1)
   case "$out" in *exit=1*) echo "CAUGHT  $n ($prop)";; *) echo "MISSED  $n ($prop) $out"; rc=1;; esac
 done
